@@ -71,7 +71,11 @@ Fixpoint append_unary_sel (o : uop) (s : tree) {struct s} : result tree :=
           else if has_slice sl then apply_skip (with_dedup no_slots true) s
           else apply_skip (with_dedup sl true) skip
       | Proj cs =>
-          if has_sort sl && negb (bool_decide (op_required (Sort (s_sort sl)) ⊆ cs)) && (has_dedup sl || is_chain skip)
+          (* the existing Sort needs a column this Projection drops and cannot stay with it in one SELECT: the operands
+             of a UNION ALL get the Projection; under DISTINCT the Sort moves to the outer query with the Projection
+             unless it needs a column the SELECT itself already hides *)
+          if has_sort sl && negb (bool_decide (op_required (Sort (s_sort sl)) ⊆ cs)) &&
+             (if has_dedup sl then negb (bool_decide (op_required (Sort (s_sort sl)) ⊆ columns s)) else is_chain skip)
           then (if has_slice sl then apply_skip (with_proj no_slots (Some cs)) s else Err OrderLoss)
           else
           if has_dedup sl then
